@@ -51,6 +51,16 @@ def gen(ctx):
         {"ops": [{"op": "replace", "path": "", "value": {"r": []}}, {"op": "add", "path": "/r/-", "value": 1}], "doc": {"a": 1}},
         {"ops": [{"op": "add", "path": "/a", "value": {"k": []}}, {"op": "copy", "from": "/a", "path": "/b"}, {"op": "add", "path": "/b/k/-", "value": 1}], "doc": {}},
     ]
+    # complete grid for the two non-standard operations: every final token kind x every parent kind
+    gdocs = [{"a": 1, "foo": {"a": 1, "#a": 2, "0": 3}, "arr": [1, 2], "#foo": 0, "e": {}}, {"foo": 1}, [[1], {"a": 1}], {"~a": 1, "a": [0]}]
+    gtoks = ["a", "#a", "~0a", "#foo", "~0foo", "foo", "0", "1", "2", "3", "-", "#0", "#1", "~00", "zz", "", "01", "-1"]
+    for gd in gdocs:
+        for par, _ in G.locations(gd):
+            for t in gtoks:
+                path = G.rfc6901_spell(par) + "/" + t
+                for name in ("addne", "addap", "add"):
+                    cases.append({"ops": [{"op": name, "path": path, "value": 9}], "doc": copy.deepcopy(gd), "grid": True})
+    ctx.exhaustive_spaces.append("addne/addap/add x %d final tokens (names, '#'/'~'-prefixed look-alikes of existing members, indices, '-', '') x every location of %d documents" % (len(gtoks), len(gdocs)))
     docs = [{}, {"a": [1]}, {"a": [], "b": {"k": []}}, [], {"a": {"0": 1}, "b": 1}, {"a": [[]], "1": 0}]
     for _ in range(1200 if ctx.tier == "quick" else 25000):
         cases.append({"ops": ops_pool(ctx.rng), "doc": copy.deepcopy(ctx.rng.choice(docs))})
@@ -72,9 +82,59 @@ def builder(ops, P):
     return p
 
 
+def _rfc_parent(doc, toks):
+    """RFC 6901 walk to the parent of the last token; None when it does not exist."""
+    cur = doc
+    for t in toks[:-1]:
+        if isinstance(cur, dict) and t in cur:
+            cur = cur[t]
+        elif isinstance(cur, list) and (t == "0" or (t.isascii() and t.isdigit() and t[0] != "0")) and int(t) < len(cur):
+            cur = cur[int(t)]
+        else:
+            return None
+    return cur
+
+
+def _nonstandard_ops(ctx, c):
+    """addne = add unless the object member exists (then nothing changes); addap = add unless the array
+    index is beyond the end (then append). Decided on the implementation against an independent reading."""
+    from jsonpath import JSONPatch
+    op = c["ops"][0]
+    if len(c["ops"]) != 1 or op["op"] not in ("addne", "addap") or not op["path"].startswith("/"):
+        return
+    doc = c["doc"]
+    toks = [x.replace("~1", "/").replace("~0", "~") for x in op["path"].split("/")[1:]]
+    parent = _rfc_parent(doc, toks)
+    if parent is None:
+        return
+    def run(o):
+        r = core.outcome(lambda: JSONPatch([o]).apply(copy.deepcopy(doc)))
+        return {"ok": core.canon(r["ok"])} if "ok" in r else {"err": r["err"]}
+    got = run(op)
+    as_add = run({**op, "op": "add"})
+    last = toks[-1]
+    if op["op"] == "addne":
+        want = {"ok": core.canon(doc)} if isinstance(parent, dict) and last in parent else as_add
+        if got != want:
+            ctx.violation("addne differs from add only in leaving an existing object member untouched", {"ops": c["ops"], "doc": doc}, got, want)
+    else:
+        if "ok" in as_add:
+            want = as_add
+        elif isinstance(parent, list) and (last == "0" or (last.isascii() and last.isdigit() and last[0] != "0")) and int(last) >= len(parent):
+            d2 = copy.deepcopy(doc)
+            _rfc_parent(d2, toks).append(op["value"])
+            want = {"ok": core.canon(d2)}
+        else:
+            return
+        if got != want:
+            ctx.violation("addap differs from add only in appending when the array index cannot be resolved", {"ops": c["ops"], "doc": doc}, got, want)
+
+
 def evaluate(ctx, cases):
     from jsonpath import JSONPatch
 
+    for c in cases:
+        _nonstandard_ops(ctx, c)
     reqs = [{"op": "patch.apply", "ops": core.enc(c["ops"]), "doc": core.enc(c["doc"]), "ue": True} for c in cases]
     outs = ctx.driver.run(reqs, jobs=ctx.jobs)
     for c, m in zip(cases, outs):
